@@ -847,6 +847,11 @@ def binary_cases(ctx):
             kind = "+" if kind == "-" else "-"   # git's own colour for that side is not a moved colour
         cases.append(("moved", dict(params=p, kind=kind, form=rng.choice(["per-line", "per-marker"]),
                                     mode=rng.choice(MOVED_MODES))))
+    # git's own colour plus something else is a moved-line style too (bold red on a removed line …)
+    for p, kind in [("1;31", "-"), ("31;1", "-"), ("7;31", "-"), ("31;48;5;3", "-"), ("38;5;1", "+"), ("1;32", "+"),
+                    ("32;4", "+"), ("2;32", "+"), ("32;40", "+"), ("38;5;2;1", "+")]:
+        for form in ("per-line", "per-marker"):
+            cases.append(("moved", dict(params=p, kind=kind, form=form, mode=rng.choice(MOVED_MODES))))
     for p in ["1;35", "1;36", "1;38;5;5", "35;1", "1;38;5;6", "1;34", "35", "1;35;4"]:
         for kind in "-+":
             cases.append(("moved", dict(params=p, kind=kind, form="per-line", mode=[], map=True)))
